@@ -12,7 +12,7 @@ from .. import loader
 from . import byt, tok
 
 I = z3.Int
-VARIANTS = ["same", "rate", "width", "channels"]
+VARIANTS = ["same", "rate", "width", "channels", "width and channels (same frame size)"]
 
 
 def other_fmt(sw, ch, sr, variant):
@@ -22,6 +22,13 @@ def other_fmt(sw, ch, sr, variant):
         return (2 if sw != 2 else 4), ch, sr
     if variant == "channels":
         return sw, ch + 1, sr
+    if variant.startswith("width and channels"):
+        # two mismatches that compensate each other in the size of one multichannel sample
+        if sw > 1:
+            return sw // 2, ch * 2, sr
+        if ch % 2 == 0:
+            return sw * 2, ch // 2, sr
+        return sw * 2, ch, sr       # no compensating pair exists: plain width mismatch
     return sw, ch, sr
 
 
@@ -70,6 +77,11 @@ def concat_harness(L, sw, ch, sr, op, k, variant, feed="list"):
                 acc = regs[0]
                 for r in regs[1:]:
                     acc = acc + r
+                res = acc
+            elif op == "+=":
+                acc = regs[0]               # a second name for the first operand: augmented assignment must rebind, not mutate
+                for r in regs[1:]:
+                    acc += r
                 res = acc
             elif op == "sum":
                 res = sum(fed())
@@ -318,6 +330,10 @@ def replay_fn(c):
                     res = regs[0]
                     for r in regs[1:]:
                         res = res + r
+                elif op == "+=":
+                    res = regs[0]
+                    for r in regs[1:]:
+                        res += r
                 elif op == "sum":
                     res = sum({"iter": iter, "generator": lambda x: (r for r in x), "tuple": tuple}.get(c.get("feed"), list)(regs))
                 else:
@@ -445,13 +461,19 @@ def run(rep):
         rep.add_exploration(hn, ex)
         tok.handle_cex(rep, hn, ex, replay_fn, ideal=ideal)
     for (sw, ch) in fm:
-        for op in ("+", "sum", "join"):
-            for k in range(0 if op != "+" else 1, KMAX + 1):
+        for op in ("+", "+=", "sum", "join"):
+            if op == "+=" and (sw, ch) != fm[0]:
+                continue
+            for k in range(0 if op not in ("+", "+=") else 1, (KMAX if op != "+=" else 3) + 1):
                 for variant in (VARIANTS if (k >= 2 and (sw, ch) == fm[0]) else VARIANTS[:1]):
                     go("%s[sw=%d,ch=%d,k=%d,%s]" % (op, sw, ch, k, variant), concat_harness(L, sw, ch, 10, op, k, variant))
                 if op != "+" and k in (2, 3) and (sw, ch) == fm[0]:
                     for feed in ("iter", "generator", "tuple"):
                         go("%s[sw=%d,ch=%d,k=%d,%s]" % (op, sw, ch, k, feed), concat_harness(L, sw, ch, 10, op, k, "same", feed))
+        if (sw, ch) == fm[0]:
+            for (sw2, ch2) in ((2, 1), (1, 2), (4, 1)):
+                for op in ("+", "sum", "join"):
+                    go("%s[sw=%d,ch=%d,k=2,%s]" % (op, sw2, ch2, VARIANTS[4]), concat_harness(L, sw2, ch2, 10, op, 2, VARIANTS[4]))
         for n in list(range(-1, NMAX + 1)) + [2.0, "3", None]:
             for left in ((False, True) if (sw, ch) == fm[0] else (False,)):
                 go("repeat[sw=%d,ch=%d,n=%r,%s]" % (sw, ch, n, "left" if left else "right"), repeat_harness(L, sw, ch, 10, n, left), workers=2)
